@@ -17,6 +17,7 @@ EXPLANATION = (
     "precondition (dangling links must be repaired too); obsolete links are removed before new ones are made, deepest first."
     ' (f) The link-building and view-updating loops carry nothing between jobs / links.'
     ' The tree of existing links and the colouring of wanted links split paths into components the same way.'
+    ' The walk over an existing view reads both name lists of os.walk (a dangling link is a file name); the view analysis is judged in _analyze_view or, when it was written out, in _update_view (C17-c); (j) `signac view` with an empty selection still updates the view (C17-j).'
 )
 UNDECIDED = "Incremental result == from-scratch result over histories, absence of empty directories and exact link targets are not decided."
 
